@@ -173,7 +173,7 @@ pub fn run(args: &Args, report: &mut Report) {
             let (batch, fold) = match r {
                 Ok(x) => x,
                 Err(m) => {
-                    report.oracle_failure(json!({"input": input, "what": format!("union panicked: {m}"), "class": null}));
+                    push_failure(report, json!({"input": input, "what": format!("union panicked: {m}"), "class": null}));
                     continue;
                 }
             };
@@ -183,12 +183,12 @@ pub fn run(args: &Args, report: &mut Report) {
                     let nb = canon_str(&b, true);
                     let nf = canon_str(&f, true);
                     if nb != nf {
-                        report.oracle_failure(json!({"input": input, "what": format!("union_all gives {b}, folding TypeOps::Union gives {f}"), "class": null}));
+                        push_failure(report, json!({"input": input, "what": format!("union_all gives {b}, folding TypeOps::Union gives {f}"), "class": null}));
                     } else if batch != fold {
                         report.count("union_batch_vs_fold_partial_eq_differs");
                         if canon_str(&b, false) != canon_str(&f, false) {
                             report.count("union_batch_vs_fold_duplicate_members");
-                            report.oracle_failure(json!({"input": input, "what": format!("union_all keeps structurally equal members twice: {b} vs fold {f} (LuaType::from_vec dedupes through a pointer hash)"), "class": "union-batch-duplicate-members"}));
+                            push_failure(report, json!({"input": input, "what": format!("union_all keeps structurally equal members twice: {b} vs fold {f} (LuaType::from_vec dedupes through a pointer hash)"), "class": "union-batch-duplicate-members"}));
                         }
                     }
                 }
@@ -242,9 +242,9 @@ pub fn run(args: &Args, report: &mut Report) {
             if law_id != 0 && real != "ok" {
                 let class = if has_bad_table_arity(&s) || has_bad_table_arity(&c) { Some("table-generic-arity-not-2") } else { None };
                 report.count(&format!("oracle_class:{}", class.unwrap_or("unclassified")));
-                report.oracle_failure(json!({"input": input, "what": format!("law `{law}` fails on the real checker: check_type_compact = {real} for {text}"), "class": class}));
+                push_failure(report, json!({"input": input, "what": format!("law `{law}` fails on the real checker: check_type_compact = {real} for {text}"), "class": class}));
             } else if real.starts_with("panic") {
-                report.oracle_failure(json!({"input": input, "what": format!("check_type_compact panicked: {real}"), "class": null}));
+                push_failure(report, json!({"input": input, "what": format!("check_type_compact panicked: {real}"), "class": null}));
             }
             let (Ok(ss), Ok(cs)) = (ser(&s, true), ser(&c, true)) else {
                 report.count("check_case_outside_fragment");
@@ -343,10 +343,26 @@ fn replay(path: &str, report: &mut Report) {
         let b = ser_any(&batch).map(|s| canon_str(&s, true));
         let f = ser_any(&fold).map(|s| canon_str(&s, true));
         if b != f {
-            report.oracle_failure(json!({"input": input, "what": format!("union_all gives {b:?}, fold gives {f:?}"), "class": null}));
+            push_failure(report, json!({"input": input, "what": format!("union_all gives {b:?}, fold gives {f:?}"), "class": null}));
         }
         report.notes.push(format!("replayed union case: batch={b:?} fold={f:?}"));
     } else {
         report.notes.push("check replays are re-run through the generator seed (input recorded as serialised types)".into());
     }
+}
+
+/// keep the list of reported failures small per known class so that unclassified ones are never cut off
+fn push_failure(report: &mut Report, v: Value) {
+    let class = v["class"].as_str().map(|s| s.to_string());
+    if let Some(c) = class {
+        let key = format!("oracle_listed:{c}");
+        let n = report.distribution.get(&key).copied().unwrap_or(0);
+        report.count(&key);
+        if n >= 5 {
+            report.count("oracle_failures_total");
+            report.count("oracle_failures_not_listed");
+            return;
+        }
+    }
+    report.oracle_failure(v);
 }
